@@ -269,6 +269,7 @@ func extractTermsAux(ctx *Context, x interface{}, terms StringSet, depth int) {
 
 func (s *IndexedState) Add(ctx *Context, id string, x Map) (string, error) {
 	Log(DEBUG, ctx, "IndexedState.Add", "state", s.Name, "factx", x, "id", id)
+	verifPoint("IndexedState.Add.beforeLock")
 	// The lock is held until the fact is stored, too: memory and
 	// storage have to see concurrent writers of an id in the same
 	// order.
@@ -828,6 +829,7 @@ func (s *IndexedState) FindCachedRules(ctx *Context, event Map) (map[string]*Rul
 	if err != nil {
 		return nil, err
 	}
+	verifPoint("IndexedState.FindCachedRules.beforeCache")
 
 	s.cacheMutex.Lock()
 	defer s.cacheMutex.Unlock()
